@@ -96,6 +96,17 @@ type caseT struct {
 	sealKey  *keyPair
 	badParent bool
 
+	// validator-set history: what the chain holds at the OTHER look-back height. The protocol reads the validator
+	// set at N-StakeLookBack (certificates: N-2*ACoCHTFrequency) and the seed at N-SeedLookBack (N-ACoCHTFrequency);
+	// lb / certLb above are the sets at the stake heights (the ground truth), the decoys are the sets committed by
+	// the headers at the seed heights, and the headers at the stake heights carry decoy seeds.
+	history     bool
+	lbDecoy     *lookBack
+	certLbDecoy *lookBack
+	decoySeed   common.Hash
+	stakeHeader     *types.Header
+	certStakeHeader *types.Header
+
 	// realised
 	header     *types.Header
 	parent     *types.Header
@@ -161,6 +172,22 @@ func (c *caseT) atom(a atomPlan) (sigAtom, []byte) {
 	return sigAtom{key: a.key.id, hash: h, round: a.round.String(), index: a.index}, votePayload(h, a.round, a.index)
 }
 
+// blsSign memoises genuine BLS signatures (deterministic): twins of one header sign the same payloads again and again
+var blsSigMemo = map[string]bls.Signature{}
+
+func blsSign(k *keyPair, payload []byte) bls.Signature {
+	id := fmt.Sprintf("%d|%x|%x", k.id, k.blsPK[:8], payload)
+	if s, ok := blsSigMemo[id]; ok {
+		return s
+	}
+	if len(blsSigMemo) > 20000 {
+		blsSigMemo = map[string]bls.Signature{}
+	}
+	s := k.blsSk.Sign(payload)
+	blsSigMemo[id] = s
+	return s
+}
+
 func (c *caseT) realiseUC(p *ucPlan, cert bool, r *vh.RNG) ([]byte, []voteTruth, aggTerm) {
 	var vts []voteTruth
 	var votes []ucon.SingleVote
@@ -199,7 +226,7 @@ func (c *caseT) realiseUC(p *ucPlan, cert bool, r *vh.RNG) ([]byte, []voteTruth,
 		for _, a := range p.atoms {
 			at, payload := c.atom(a)
 			agg.atoms = append(agg.atoms, at)
-			sigs = append(sigs, a.key.blsSk.Sign(payload))
+			sigs = append(sigs, blsSign(a.key, payload))
 		}
 		as, err := blsMgr.Aggregate(sigs)
 		if err != nil {
@@ -237,6 +264,16 @@ func (c *caseT) realise(r *vh.RNG) *truth {
 		seedNum = c.number - c.cp.SeedLookBack
 	}
 	c.seedHeader = lbHeader(c.seedHdr, seedNum, lbRoot)
+	c.stakeHeader, c.certStakeHeader = nil, nil
+	if c.history {
+		hs := protocolHeights(c.cp, c.number)
+		if hs.stake != hs.seed {
+			c.stakeHeader = lbHeader(lbHeaderPlan{seed: c.decoySeed, certT: c.cp.CertValThreshold, version: 1}, hs.stake, common.BytesToHash([]byte("stake-height")))
+		}
+		if c.isCertRound() && hs.certStake != hs.certSeed {
+			c.certStakeHeader = lbHeader(lbHeaderPlan{seed: c.decoySeed, certT: c.cp.CertValThreshold, version: c.certHdr.version}, hs.certStake, common.BytesToHash([]byte("cert-stake-height")))
+		}
+	}
 	if c.isCertRound() {
 		c.certHeader = lbHeader(c.certHdr, c.number-params.ACoCHTFrequency, certRoot)
 	} else {
@@ -300,6 +337,73 @@ func (c *caseT) realise(r *vh.RNG) *truth {
 		panic("header hash depends on omitted fields")
 	}
 	return t
+}
+
+// protocolHeights: the look-back heights as the PROTOCOL defines them (read from the parameters, not from the code
+// under test): validator set at N-StakeLookBack, seed at N-SeedLookBack, certificate seed at N-ACoCHTFrequency,
+// certificate validator set at N-2*ACoCHTFrequency; 0 when the chain is shorter.
+type heights struct{ stake, seed, certSeed, certStake uint64 }
+
+func protocolHeights(cp params.CaravelParams, n uint64) heights {
+	back := func(k uint64) uint64 {
+		if n > k {
+			return n - k
+		}
+		return 0
+	}
+	return heights{back(cp.StakeLookBack), back(cp.SeedLookBack), back(params.ACoCHTFrequency), back(2 * params.ACoCHTFrequency)}
+}
+
+// decoyWorld derives the validator set the chain holds at the other look-back height: same keys, but members
+// switched offline/online, moved between chamber and house, stakes changed, a member absent.
+func decoyWorld(r *vh.RNG, w *world) *world {
+	d := &world{keys: w.keys, outsider: w.outsider}
+	for _, s := range w.specs {
+		c := *s
+		d.specs = append(d.specs, &c)
+	}
+	n := len(d.specs)
+	changes := r.Range(1, 4)
+	for k := 0; k < changes; k++ {
+		s := d.specs[r.Intn(n)]
+		switch r.Intn(5) {
+		case 0, 1:
+			s.online = !s.online
+		case 2:
+			if s.kind() == int(params.KindChamber) {
+				s.role = params.RoleHouse
+			} else {
+				s.role = params.RoleSenator
+			}
+		case 3:
+			s.stake = s.stake/2 + uint64(r.Intn(5000))
+			s.token = s.stake*1000 + 3
+		default:
+			if n > 1 {
+				i := r.Intn(n)
+				d.specs = append(d.specs[:i:i], d.specs[i+1:]...)
+				n--
+			}
+		}
+	}
+	// keep the decoy usable: enough online chamber stake for the protocol's committee sizes
+	tot := uint64(0)
+	var any *valSpec
+	for _, s := range d.specs {
+		if s.online && s.kind() == int(params.KindChamber) {
+			tot += s.stake
+			any = s
+		}
+	}
+	if any == nil {
+		any = d.specs[0]
+		any.online, any.role = true, params.RoleSenator
+	}
+	if tot < 12000 {
+		any.stake += 12000
+		any.token = any.stake*1000 + 9
+	}
+	return d
 }
 
 // ---- honest plan -----------------------------------------------------------------------------------------
